@@ -28,10 +28,19 @@ func c16(tier string) []*explore.Scenario {
 	if tier == "thorough" {
 		bound = 2
 	}
-	for _, pre := range []bool{false, true} {
-		out = append(out, c16RPC("2unary", pre, bound), c16RPC("unary+stream", pre, bound), c16RPC("2streams", pre, bound-0))
+	// thorough: the d<=2 searches of the stream workloads are split over several worker
+	// processes (explore.Sharded: the union of the shards is the whole schedule tree)
+	shards := 1
+	if tier == "thorough" {
+		shards = 8
 	}
-	out = append(out, c16RPC("early-return", true, bound), c16RPC("early-return", false, bound-1))
+	for _, pre := range []bool{false, true} {
+		out = append(out, c16RPC("2unary", pre, bound))
+		out = append(out, explore.Sharded(c16RPC("unary+stream", pre, bound), shards/2)...)
+		out = append(out, explore.Sharded(c16RPC("2streams", pre, bound), shards)...)
+	}
+	out = append(out, explore.Sharded(c16RPC("early-return", true, bound), shards)...)
+	out = append(out, c16RPC("early-return", false, bound-1))
 	// a destination that is replaced under its name (re-attach, attach during a pending dial):
 	// later envelopes are delivered to the newer connection (scenarios shared with C17)
 	for _, when := range []string{"before-old-fails", "after-old-fails"} {
@@ -39,6 +48,9 @@ func c16(tier string) []*explore.Scenario {
 	}
 	for _, dial := range []string{"fails", "succeeds", "pending"} {
 		out = append(out, c17AttachDuringDial("C16", dial, bound))
+		if dial != "pending" {
+			out = append(out, c17AttachRacesRouting("C16", dial, bound+1))
+		}
 	}
 	out = append(out, c16DialBacklog(3, bound+1), c16DialBacklog(5, bound))
 	for _, pause := range []time.Duration{29 * time.Second, 31 * time.Second, 10 * time.Minute} {
